@@ -121,7 +121,7 @@ def one(ctx, spec, inputs, runner, sched, label, with_proc=False, loop_ref=None,
 
 
 def run(ctx):
-    n = 60 if ctx.tier == "quick" else 350
+    n = 60 if ctx.tier == "quick" else 1300
     if ctx.replay:
         c = ctx.replay["case"]
         one(ctx, c["spec"], c["inputs"], c["runner"], rt.Sched(default="rand", rng=ctx.rng) if c["runner"] == "async" else None, "replay")
